@@ -63,8 +63,8 @@ def extra_obligations(index, tier):
         s = ast.unparse(index.func(key).node)
         out.append((f"{key.split(':')[1]} builds the code base from the collected exclude list", call in s, "", key, "pattern"))
         if "_compute" not in key:
-            out.append((f"{key.split(':')[1]} appends the analysis file's patterns to the -x patterns",
-                        "args.excludes += analysis_toml['codebase']['exclude']" in s, "", key, "pattern"))
+            out.append((f"{key.split(':')[1]} puts the -x patterns after the analysis file's (one ordered list, command line last)",
+                        "args.excludes = analysis_toml['codebase']['exclude'] + args.excludes" in s, "", key, "pattern"))
     out += [o for o in C08.extra_obligations(index, tier) if o[0].startswith("structure/")]
     out += [o for o in C09.extra_obligations(index, tier) if o[0].startswith("the exclude list")]
     return out
